@@ -50,6 +50,11 @@ void h_rule_check(void)
     char class0[CLASSLEN + 1];
     req = mk_request();
     V_IN(in_rule); V_IN(in_fn); V_IN(in_xok); V_IN(in_cname);
+#ifdef CRIT
+    /* one job per subset of the glob / service criteria (address prefix, class-vs-name and trust stay symbolic) */
+    in_rule.have_account = ((CRIT) >> 0) & 1; in_rule.have_username = ((CRIT) >> 1) & 1;
+    in_rule.have_hostname = ((CRIT) >> 2) & 1; in_rule.have_xreply = ((CRIT) >> 3) & 1;
+#endif
     in_cname.s[CN_MAX - 1] = '\0';
     /* INV: an ident was recorded together with its flag (parse_ident) */
     V_ASSUME(req->auth_username[0] == '\0' || BITSET_GET(req->flags, IAUTH_GOT_IDENT));
